@@ -159,6 +159,9 @@ def expmv(f, v, t=1., tol=1e-12, ncv=10, hermitian=False, normalize=False, retur
             normv = normv * normF
             F = F / normF
             v = V[0].add(*V[1:], amplitudes=F, **kwargs)
+            normF = v.norm()  # Krylov vectors may have lost orthonormality (missed breakdown); keep v normalized
+            normv = normv * normF
+            v = v / normF
             t_now += tau
             info['steps'] += 1
             info['error'] += err
